@@ -11,9 +11,12 @@ from .. import build, tlc, judge
 from ..core import MachineryError
 
 ATTRS = ["c_int", "l_plain", "l_init", "d_plain", "s_plain", "a_list", "a_dict", "f_call", "m_dyn", "m_list", "t_cont",
-         "u_cont", "o_int", "n_int"]
-SCALARS = ["c_int", "o_int", "m_dyn", "n_int"]
-MUTABLE = ["l_plain", "l_init", "d_plain", "s_plain", "a_list", "a_dict", "f_call", "m_list", "t_cont", "u_cont"]
+         "u_cont", "o_int", "n_int", "mp", "arr", "pf"]
+SCALARS = ["c_int", "o_int", "m_dyn", "n_int", "mp", "pf"]
+HANDLED = ["c_int", "o_int", "m_dyn", "n_int"]
+MUTABLE = ["l_plain", "l_init", "d_plain", "s_plain", "a_list", "a_dict", "f_call", "m_list", "t_cont", "u_cont", "arr"]
+DYNAMIC = ["m_dyn", "m_list", "pf"]
+MPCODE = {"a": 1, "b": 2}
 NINST = 3
 EXTRA = [None]
 
@@ -23,6 +26,10 @@ def zero(a):
 
 
 def contents(a, v):
+    if a == "mp":
+        return MPCODE.get(v, 777)
+    if a == "arr":
+        return [int(x) for x in v.tolist()]
     if a in SCALARS:
         return v
     if a in ("d_plain", "a_dict"):
@@ -67,11 +74,11 @@ class World(object):
     def view(self, k):
         o = self.objs[k]
         if o is None:
-            return {"vals": {a: {"set": 0, "v": zero(a)} for a in ATTRS}, "runs": {"m_dyn": 0, "m_list": 0}, "calls": 0,
+            return {"vals": {a: {"set": 0, "v": zero(a)} for a in ATTRS}, "runs": {a: 0 for a in DYNAMIC}, "calls": 0,
                     "extra": {"set": 0, "v": []}}
         d = o.__dict__
         vals = {a: ({"set": 1, "v": contents(a, d[a])} if a in d else {"set": 0, "v": zero(a)}) for a in ATTRS}
-        runs = {a: self.dc.COUNTS.get((id(o), a), 0) for a in ("m_dyn", "m_list")}
+        runs = {a: self.dc.COUNTS.get((id(o), a), 0) for a in DYNAMIC}
         extra = {"set": 1, "v": list(d["extra"])} if "extra" in o._instance_traits() and "extra" in d else \
                 {"set": 1 if "extra" in o._instance_traits() else 0, "v": []}
         return {"vals": vals, "runs": runs, "calls": len(self.logs[k]), "extra": extra}
@@ -105,6 +112,7 @@ class World(object):
         for cls in (self.dc.Base, self.dc.Sub):
             ct = cls.__dict__["__class_traits__"]
             out.append(sorted(ct.keys()))
+            out.append(sorted(cls.__dict__["__base_traits__"].keys()))
             for a in ATTRS:
                 t = ct[a]
                 out.append([a, repr(t.default_value()), len(t._notifiers(False) or ())])
@@ -133,15 +141,30 @@ class World(object):
                     x.items.append(9)
                 elif a == "t_cont":
                     x[0].append(9)
+                elif a == "arr":
+                    x.resize((x.shape[0] + 1,), refcheck=False)      # in place: the same ndarray object grows
+                    x[-1] = 9
                 else:
                     x.append(9)
             elif op == "assign":
-                setattr(o, a, v)
+                setattr(o, a, {1: "a", 2: "b"}[v] if a == "mp" else v)
+            elif op == "query":
+                q = v % 5
+                if q == 0:
+                    o.trait_names()
+                elif q == 1:
+                    o.traits()
+                elif q == 2:
+                    o.class_trait_names()
+                elif q == 3:
+                    o.copyable_trait_names()
+                else:
+                    o.trait_names(transient=None)
             elif op == "delete":
                 delattr(o, a)
             elif op == "register":
                 h_legacy, h_obs = self.handler_for(k)
-                for s in SCALARS:
+                for s in HANDLED:
                     if self.regs[k] % 2 == 0:
                         o.on_trait_change(h_legacy, s)
                     else:
@@ -162,6 +185,8 @@ class World(object):
                 raise MachineryError(op)
         except AttributeError:
             ret = "AttributeError"
+        except self.dc.HookFault:
+            ret = -1 if op == "read" else "HookFault"
         except Exception as e:
             ret = type(e).__name__
         return ret
@@ -188,8 +213,12 @@ def run_history(rnd, steps, t):
                 op, a = "read", rnd.choice(ATTRS)
             elif u < 0.55:
                 op, a = "mutate", rnd.choice(MUTABLE)
+            elif u < 0.62:
+                op, v = "query", rnd.randint(0, 4)
             elif u < 0.7:
-                op, a, v = "assign", rnd.choice(SCALARS), rnd.choice([2, 3, 9])
+                op, a, v = "assign", rnd.choice(HANDLED + ["mp"]), rnd.choice([2, 3, 9])
+                if a == "mp":
+                    v = rnd.choice([1, 2])
             elif u < 0.78:
                 op, a = "delete", rnd.choice(ATTRS)
             elif u < 0.86:
